@@ -319,3 +319,21 @@ Lemma refuted_index_arglist :
   f_index (VArgs [v_int 1; v_int 2; v_int 3]) (v_int 2) = ROk VNull /\
   sp_index (VArgs [v_int 1; v_int 2; v_int 3]) (v_int 2) = v_int 2.
 Proof. split; vm_compute; reflexivity. Qed.
+
+(* == between two lists: == elements in order, same separator (undecided is its own kind), same brackets;
+   in particular the separator of an empty or one-element list is part of its identity *)
+Lemma list_eq_refines a b : veq a b = sp_equal a b.
+Proof.
+  destruct a as [? ? ?|?|?| |xs s1 k1|?|?]; try reflexivity.
+  destruct b as [? ? ?|?|?| |ys s2 k2|?|?]; try reflexivity.
+  unfold sp_equal, veq. cbn [eqL]. f_equal. f_equal.
+  revert ys. induction xs as [|x r IH]; intros [|y ys]; try reflexivity. cbn [all2]. now rewrite <- IH.
+Qed.
+
+Lemma short_list_sep_matters x :
+  veq (VList [x] (Some SSpace) false) (VList [x] (Some SComma) false) = false /\
+  veq (VList [] (Some SSpace) false) (VList [] (Some SComma) false) = false /\
+  veq (VList [] None false) (VList [] (Some SSpace) false) = false.
+Proof.
+  repeat split; try reflexivity. unfold veq. cbn [eqL]. now rewrite andb_false_r.
+Qed.
